@@ -165,4 +165,441 @@ theorem Obj.mem_refs {ob : Obj} {r : Ref} : r ∈ ob.refs ↔ ∃ a, ob.get a = 
     · exact .inl (.inr h)
     · exact .inr h
 
+/-! ## the ownership invariant and the frame -/
+
+/-- The receiver `y` was allocated after `s0`, and so was every container it is bound to — except possibly the
+graph attribute while it is still a view (`v` over-approximates the view flag). -/
+structure Inv (s0 t : Store) (y : Ref) (v : Bool) : Prop where
+  ext : Ext s0 t
+  fresh : s0.objs.length ≤ y
+  own : ∀ a r, (t.obj y).get a = some r → (a = .graph ∧ (t.obj y).view = true) ∨ s0.data.length ≤ r
+  flag : (t.obj y).view = true → v = true
+
+theorem step_inv {s0 t : Store} {y : Ref} {v : Bool} (hy : y < t.objs.length) (h : Inv s0 t y v) (st : Stmt)
+    (hst : (v && st.needsOwnGraph) = false) :
+    Inv s0 (step t y st) y (v && !st.ownsGraph) ∧ y < (step t y st).objs.length := by
+  cases st with
+  | wr a f =>
+    simp only [step]
+    split
+    · exact ⟨⟨h.ext, h.fresh, h.own, by
+        intro hv; have := h.flag hv; subst this
+        cases a <;> simp [Stmt.ownsGraph]⟩, hy⟩
+    · rename_i r hr
+      have hown := h.own a r hr
+      have hr' : s0.data.length ≤ r := by
+        rcases hown with ⟨ha, hv⟩ | h'
+        · subst ha; have := h.flag hv; subst this; simp [Stmt.needsOwnGraph] at hst
+        · exact h'
+      refine ⟨⟨h.ext.wr_fresh hr' _, h.fresh, ?_, ?_⟩, by simpa using hy⟩
+      · simpa using h.own
+      · intro hv; have := h.flag (by simpa using hv); subst this
+        cases a <;> simp [Stmt.ownsGraph]
+  | rebind a f =>
+    simp only [step]
+    have hy' : y < (t.allocD (f (t.abs y))).1.objs.length := by simpa using hy
+    refine ⟨⟨(h.ext.allocD _).setObj_fresh h.fresh _, h.fresh, ?_, ?_⟩, by simpa using hy⟩
+    · intro a' r hr
+      rw [obj_setObj_same hy', Obj.get_set] at hr
+      rw [obj_setObj_same hy', Obj.view_set]
+      split at hr
+      · injection hr with hr; subst hr
+        right; simp; exact h.ext.dlen
+      · rename_i hne
+        rcases h.own a' r hr with ⟨ha, hv⟩ | h'
+        · left; subst ha
+          have : a ≠ .graph := fun e => hne e.symm
+          simp [this, hv]
+        · exact .inr h'
+    · rw [obj_setObj_same hy', Obj.view_set]
+      intro hv
+      cases a <;> simp_all [Stmt.ownsGraph] <;> exact h.flag hv
+  | setMeta f =>
+    simp only [step]
+    refine ⟨⟨h.ext.setObj_fresh h.fresh _, h.fresh, ?_, ?_⟩, by simpa using hy⟩
+    · intro a r hr
+      rw [obj_setObj_same hy] at hr ⊢
+      have : ({ t.obj y with info := f (t.abs y) } : Obj).get a = (t.obj y).get a := by cases a <;> rfl
+      rw [this] at hr
+      exact h.own a r hr
+    · rw [obj_setObj_same hy]; intro hv; simp [Stmt.ownsGraph]; exact h.flag hv
+  | thaw =>
+    simp only [step]
+    split
+    · split
+      · refine ⟨⟨h.ext.setObj_fresh h.fresh _, h.fresh, ?_, ?_⟩, by simpa using hy⟩
+        · intro a r hr
+          rw [obj_setObj_same hy, Obj.get_set] at hr
+          rw [obj_setObj_same hy, Obj.view_set]
+          split at hr
+          · cases hr
+          · rename_i hne
+            rcases h.own a r hr with ⟨ha, _⟩ | h'
+            · exact absurd ha hne
+            · exact .inr h'
+        · rw [obj_setObj_same hy, Obj.view_set]; simp
+      · rename_i r hr
+        have hy' : y < (t.allocD (t.rd r)).1.objs.length := by simpa using hy
+        refine ⟨⟨(h.ext.allocD _).setObj_fresh h.fresh _, h.fresh, ?_, ?_⟩, by simpa using hy⟩
+        · intro a r' hr'
+          rw [obj_setObj_same hy', Obj.get_set] at hr'
+          rw [obj_setObj_same hy', Obj.view_set]
+          split at hr'
+          · injection hr' with hr'; subst hr'
+            right; simp; exact h.ext.dlen
+          · rename_i hne
+            rcases h.own a r' hr' with ⟨ha, _⟩ | h'
+            · exact absurd ha hne
+            · exact .inr h'
+        · rw [obj_setObj_same hy', Obj.view_set]; simp
+    · rename_i hv
+      refine ⟨⟨h.ext, h.fresh, h.own, ?_⟩, hy⟩
+      intro hv'; exact absurd hv' hv
+  | clear a =>
+    simp only [step]
+    refine ⟨⟨h.ext.setObj_fresh h.fresh _, h.fresh, ?_, ?_⟩, by simpa using hy⟩
+    · intro a' r hr
+      rw [obj_setObj_same hy, Obj.get_set] at hr
+      rw [obj_setObj_same hy, Obj.view_set]
+      split at hr
+      · cases hr
+      · rename_i hne
+        rcases h.own a' r hr with ⟨ha, hv⟩ | h'
+        · left; subst ha
+          have : a ≠ .graph := fun e => hne e.symm
+          simp [this, hv]
+        · exact .inr h'
+    · rw [obj_setObj_same hy, Obj.view_set]
+      intro hv
+      cases a <;> simp_all [Stmt.ownsGraph] <;> exact h.flag hv
+
+theorem exec_inv {s0 : Store} {y : Ref} (b : List Stmt) : ∀ (t : Store) (v : Bool), y < t.objs.length →
+    Inv s0 t y v → writesOwn v b = true →
+    Inv s0 (exec t y b) y (viewAfter v b) ∧ y < (exec t y b).objs.length := by
+  induction b with
+  | nil => intro t v hy h _; exact ⟨h, hy⟩
+  | cons st b ih =>
+    intro t v hy h hw
+    simp only [writesOwn, Bool.and_eq_true, Bool.not_eq_true'] at hw
+    obtain ⟨h1, h2⟩ := step_inv hy h st hw.1
+    exact ih (step t y st) _ h2 h1 hw.2
+
+/-! ## copy -/
+
+theorem dup_ext {s0 t : Store} (h : Ext s0 t) (r : Option Ref) : Ext s0 (t.dup r).1 := by
+  cases r with
+  | none => exact h
+  | some r => exact h.allocD _
+
+@[simp] theorem dup_objs (t : Store) (r : Option Ref) : (t.dup r).1.objs = t.objs := by cases r <;> rfl
+@[simp] theorem dup_lists (t : Store) (r : Option Ref) : (t.dup r).1.lists = t.lists := by cases r <;> rfl
+
+theorem dup_len_le (t : Store) (r : Option Ref) : t.data.length ≤ (t.dup r).1.data.length := by
+  cases r with
+  | none => exact Nat.le_refl _
+  | some r => simp [Store.dup]
+
+theorem dup_some {t : Store} {r : Option Ref} {q : Ref} (h : (t.dup r).2 = some q) :
+    q = t.data.length ∧ q < (t.dup r).1.data.length ∧ ∃ r0, r = some r0 ∧ (t.dup r).1.rd q = t.rd r0 := by
+  cases r with
+  | none => cases h
+  | some r0 =>
+    simp only [Store.dup, snd_allocD, Option.some.injEq] at h
+    subst h
+    exact ⟨rfl, by simp [Store.dup], r0, rfl, rd_allocD_new _ _⟩
+
+theorem dup_isSome (t : Store) (r : Option Ref) : (t.dup r).2.isSome = r.isSome := by cases r <;> rfl
+
+theorem dup_rd_old {t : Store} (r : Option Ref) {q : Ref} (hq : q < t.data.length) : (t.dup r).1.rd q = t.rd q := by
+  cases r with
+  | none => rfl
+  | some r => exact rd_allocD_old hq _
+
+/-- the object `copy` creates -/
+def copyOf (s : Store) (x : Ref) (stale : Bool) : Obj :=
+  let ob := s.obj x
+  let p1 := s.dup ob.nodes
+  let p2 := p1.1.dup ob.conns
+  let p3 := if stale then (p2.1, none) else p2.1.dup ob.igraph
+  { nodes := p1.2, conns := p2.2, igraph := p3.2, info := ob.info, lock := 0,
+    graph := if stale then none else ob.graph, view := if stale then false else ob.graph.isSome }
+
+theorem copyObj_snd (s : Store) (x : Ref) (stale : Bool) : (copyObj s x stale).2 = s.objs.length := by
+  cases stale <;> simp [copyObj, Store.allocObj]
+
+theorem copyObj_obj (s : Store) (x : Ref) (stale : Bool) :
+    (copyObj s x stale).1.obj s.objs.length = copyOf s x stale := by
+  cases stale <;> simp [copyObj, copyOf, Store.allocObj, Store.obj]
+
+theorem copyObj_objs_length (s : Store) (x : Ref) (stale : Bool) :
+    (copyObj s x stale).1.objs.length = s.objs.length + 1 := by
+  cases stale <;> simp [copyObj, Store.allocObj]
+
+theorem copyObj_ext (s : Store) (x : Ref) (stale : Bool) : Ext s (copyObj s x stale).1 := by
+  cases stale
+  · exact (dup_ext (dup_ext (dup_ext (Ext.refl s) _) _) _).allocObj _
+  · exact (dup_ext (dup_ext (Ext.refl s) _) _).allocObj _
+
+theorem copyObj_inv (s : Store) (x : Ref) (stale : Bool) :
+    Inv s (copyObj s x stale).1 s.objs.length true where
+  ext := copyObj_ext s x stale
+  fresh := Nat.le_refl _
+  flag _ := rfl
+  own a r hr := by
+    rw [copyObj_obj] at hr ⊢
+    cases a with
+    | nodes =>
+      right; simp only [copyOf, Obj.get] at hr
+      exact Nat.le_of_eq (dup_some hr).1.symm
+    | conns =>
+      right; simp only [copyOf, Obj.get] at hr
+      rw [(dup_some hr).1]; exact dup_len_le s (s.obj x).nodes
+    | graph =>
+      left; refine ⟨rfl, ?_⟩
+      cases stale
+      · simp only [copyOf, Obj.get] at hr ⊢; simp at hr ⊢; simp [hr]
+      · simp [copyOf, Obj.get] at hr
+    | igraph =>
+      right
+      cases stale
+      · simp only [copyOf, Obj.get] at hr; simp at hr
+        rw [(dup_some hr).1]
+        exact Nat.le_trans (dup_len_le s (s.obj x).nodes) (dup_len_le (s.dup (s.obj x).nodes).1 (s.obj x).conns)
+      · simp [copyOf, Obj.get] at hr
+
+/-- **Frame of the pattern**: whatever the body, as long as it respects `writesOwn`, a non-inplace call only
+allocates: every cell of the old store survives unchanged. -/
+theorem call_ext (b : List Stmt) (s : Store) (x : Ref) (stale : Bool) (hw : writesOwn true b = true) :
+    Ext s (call b s x false stale).1 := by
+  simp only [call, Bool.false_eq_true, if_false]
+  rw [copyObj_snd]
+  have hlen : s.objs.length < (copyObj s x stale).1.objs.length := by rw [copyObj_objs_length]; omega
+  exact (exec_inv b _ true hlen (copyObj_inv s x stale) hw).1.ext
+
+theorem call_snd_false (b : List Stmt) (s : Store) (x : Ref) (stale : Bool) :
+    (call b s x false stale).2 = s.objs.length := by
+  simp [call, copyObj_snd]
+
+theorem exec_append (s : Store) (o : Ref) (b b' : List Stmt) : exec s o (b ++ b') = exec (exec s o b) o b' := by
+  simp [exec, List.foldl_append]
+
+theorem call_append (b b' : List Stmt) (s : Store) (x : Ref) (ip stale : Bool) :
+    call (b ++ b') s x ip stale = (exec (call b s x ip stale).1 (call b s x ip stale).2 b', (call b s x ip stale).2) := by
+  cases ip <;> simp [call, exec_append]
+
+theorem viewAfter_append (v : Bool) (b b' : List Stmt) : viewAfter v (b ++ b') = viewAfter (viewAfter v b) b' := by
+  simp [viewAfter, List.foldl_append]
+
+theorem writesOwn_append (v : Bool) (b b' : List Stmt) :
+    writesOwn v (b ++ b') = (writesOwn v b && writesOwn (viewAfter v b) b') := by
+  induction b generalizing v with
+  | nil => simp [writesOwn, viewAfter]
+  | cons st b ih => simp [writesOwn, viewAfter, ih, Bool.and_assoc]
+
+theorem writesOwn_mono (b : List Stmt) : ∀ v, writesOwn true b = true → writesOwn v b = true := by
+  intro v h; cases v
+  · induction b with
+    | nil => rfl
+    | cons st b ih => simp [writesOwn]; exact ih_false b
+  · exact h
+where
+  ih_false : ∀ b : List Stmt, writesOwn false b = true := by
+    intro b; induction b with
+    | nil => rfl
+    | cons st b ih => simp [writesOwn, ih]
+
+theorem writesOwn_noGraphWrite (v : Bool) (b : List Stmt) (h : ∀ st ∈ b, st.needsOwnGraph = false) :
+    writesOwn v b = true := by
+  induction b generalizing v with
+  | nil => rfl
+  | cons st b ih =>
+    simp only [writesOwn, Bool.and_eq_true, Bool.not_eq_true']
+    refine ⟨?_, ih _ fun st' hst' => h st' (List.mem_cons_of_mem _ hst')⟩
+    rw [h st (List.mem_cons_self ..)]; simp
+
+/-! ## the concrete semantics refines the address-free one -/
+
+/-- The receiver is a valid object bound to valid, pairwise distinct containers. -/
+structure Sep (t : Store) (o : Ref) : Prop where
+  valid : o < t.objs.length
+  bound : ∀ a r, (t.obj o).get a = some r → r < t.data.length
+  inj : ∀ a a' r, (t.obj o).get a = some r → (t.obj o).get a' = some r → a = a'
+
+theorem Abs.ext' {x y : Abs} (h : ∀ a, x.get a = y.get a) (hi : x.info = y.info) : x = y := by
+  cases x; cases y
+  have h1 := h .nodes; have h2 := h .conns; have h3 := h .graph; have h4 := h .igraph
+  simp only [Abs.get] at h1 h2 h3 h4
+  simp_all
+
+theorem absObj_get (t : Store) (ob : Obj) (a : Attr) : (t.absObj ob).get a = (ob.get a).map t.rd := by
+  cases a <;> rfl
+
+theorem abs_get (t : Store) (o : Ref) (a : Attr) : (t.abs o).get a = ((t.obj o).get a).map t.rd :=
+  absObj_get t _ a
+
+@[simp] theorem Abs.info_set (x : Abs) (a : Attr) (v : Option Int) : (x.set a v).info = x.info := by
+  cases a <;> rfl
+
+theorem abs_info (t : Store) (o : Ref) : (t.abs o).info = (t.obj o).info := rfl
+
+theorem step_wr_none {t : Store} {o : Ref} {a : Attr} (f : Abs → Int) (hg : (t.obj o).get a = none) :
+    step t o (.wr a f) = t := by simp [step, hg]
+
+theorem step_wr_some {t : Store} {o : Ref} {a : Attr} {r : Ref} (f : Abs → Int) (hg : (t.obj o).get a = some r) :
+    step t o (.wr a f) = t.wr r (f (t.abs o)) := by simp [step, hg]
+
+theorem astep_wr_none {x : Abs} {a : Attr} (f : Abs → Int) (hg : x.get a = none) : astep x (.wr a f) = x := by
+  simp [astep, hg]
+
+theorem astep_wr_some {x : Abs} {a : Attr} {v : Int} (f : Abs → Int) (hg : x.get a = some v) :
+    astep x (.wr a f) = x.set a (some (f x)) := by
+  simp [astep, hg]
+
+/-- binding attribute `a` of a `Sep` receiver to a freshly allocated cell keeps `Sep` -/
+theorem sep_bind_fresh {t : Store} {o : Ref} (h : Sep t o) (a : Attr) (v : Int) :
+    Sep ((t.allocD v).1.setObj o ((t.obj o).set a (some t.data.length))) o := by
+  have hy' : o < (t.allocD v).1.objs.length := by simpa using h.valid
+  refine ⟨by simpa using h.valid, ?_, ?_⟩
+  · intro a' r' hr'
+    rw [obj_setObj_same hy', Obj.get_set] at hr'
+    simp only [data_setObj, data_length_allocD]
+    split at hr'
+    · injection hr' with hr'; subst hr'; exact Nat.lt_succ_self _
+    · exact Nat.lt_succ_of_lt (h.bound a' r' hr')
+  · intro a1 a2 r' h1 h2
+    rw [obj_setObj_same hy', Obj.get_set] at h1 h2
+    by_cases e1 : a1 = a <;> by_cases e2 : a2 = a
+    · rw [e1, e2]
+    · simp only [e1, e2, if_true, if_false] at h1 h2
+      injection h1 with h1; subst h1
+      exact absurd (h.bound a2 _ h2) (Nat.lt_irrefl _)
+    · simp only [e1, e2, if_true, if_false] at h1 h2
+      injection h2 with h2; subst h2
+      exact absurd (h.bound a1 _ h1) (Nat.lt_irrefl _)
+    · simp only [e1, e2, if_false] at h1 h2
+      exact h.inj a1 a2 r' h1 h2
+
+theorem abs_bind_fresh {t : Store} {o : Ref} (h : Sep t o) (a : Attr) (v : Int) :
+    ((t.allocD v).1.setObj o ((t.obj o).set a (some t.data.length))).abs o = (t.abs o).set a (some v) := by
+  have hy' : o < (t.allocD v).1.objs.length := by simpa using h.valid
+  apply Abs.ext'
+  · intro a'
+    rw [abs_get, obj_setObj_same hy', Obj.get_set, Abs.get_set, abs_get]
+    by_cases e : a' = a
+    · simp only [e, if_true, Option.map_some, rd_setObj]
+      rw [rd_allocD_new]
+    · simp only [e, if_false]
+      cases hg' : (t.obj o).get a' with
+      | none => rfl
+      | some r' => simp [rd_allocD_old (h.bound a' r' hg')]
+  · rw [abs_info, obj_setObj_same hy', Obj.info_set, Abs.info_set]; rfl
+
+/-- replacing the object record by one with the same bindings keeps `Sep` -/
+theorem sep_setObj_sameGet {t : Store} {o : Ref} (h : Sep t o) (ob : Obj) (hget : ∀ a, ob.get a = (t.obj o).get a) :
+    Sep (t.setObj o ob) o := by
+  refine ⟨by simpa using h.valid, ?_, ?_⟩
+  · intro a r hr; rw [obj_setObj_same h.valid, hget] at hr; simpa using h.bound a r hr
+  · intro a1 a2 r h1 h2; rw [obj_setObj_same h.valid, hget] at h1 h2; exact h.inj a1 a2 r h1 h2
+
+theorem abs_setObj_sameGet {t : Store} {o : Ref} (h : Sep t o) (ob : Obj) (hget : ∀ a, ob.get a = (t.obj o).get a) :
+    (t.setObj o ob).abs o = { t.abs o with info := ob.info } := by
+  apply Abs.ext'
+  · intro a; rw [abs_get, obj_setObj_same h.valid, hget]
+    show _ = (t.abs o).get a
+    rw [abs_get]; rfl
+  · rw [abs_info, obj_setObj_same h.valid]
+
+theorem step_abs {t : Store} {o : Ref} (h : Sep t o) (st : Stmt) :
+    Sep (step t o st) o ∧ (step t o st).abs o = astep (t.abs o) st := by
+  cases st with
+  | wr a f =>
+    cases hg : (t.obj o).get a with
+    | none =>
+      rw [step_wr_none f hg, astep_wr_none f (by rw [abs_get, hg]; rfl)]
+      exact ⟨h, rfl⟩
+    | some r =>
+      rw [step_wr_some f hg, astep_wr_some (v := t.rd r) f (by rw [abs_get, hg]; rfl)]
+      have hr := h.bound a r hg
+      refine ⟨⟨h.valid, ?_, ?_⟩, ?_⟩
+      · intro a' r' hr'; simpa using h.bound a' r' hr'
+      · intro a1 a2 r'; simpa using h.inj a1 a2 r'
+      · apply Abs.ext'
+        · intro a'
+          rw [abs_get, Abs.get_set, abs_get, obj_wr]
+          by_cases e : a' = a
+          · subst e; simp [hg, rd_wr_same hr]
+          · simp only [e, if_false]
+            cases hg' : (t.obj o).get a' with
+            | none => rfl
+            | some r' =>
+              have : r ≠ r' := fun e' => e (h.inj a' a r' hg' (e' ▸ hg))
+              simp [rd_wr_ne this]
+        · rw [Abs.info_set]; rfl
+  | rebind a f =>
+    simp only [step, astep, snd_allocD, obj_allocD]
+    exact ⟨sep_bind_fresh h a _, abs_bind_fresh h a _⟩
+  | setMeta f =>
+    simp only [step, astep]
+    have hget : ∀ a, ({ t.obj o with info := f (t.abs o) } : Obj).get a = (t.obj o).get a := by
+      intro a; cases a <;> rfl
+    exact ⟨sep_setObj_sameGet h _ hget, abs_setObj_sameGet h _ hget⟩
+  | thaw =>
+    simp only [step, astep]
+    split
+    · cases hg : (t.obj o).graph with
+      | none =>
+        simp only
+        have hget : ∀ a, ((t.obj o).set .graph none).get a = (t.obj o).get a := by
+          intro a; rw [Obj.get_set]; split
+          · rename_i e; subst e; exact hg.symm
+          · rfl
+        refine ⟨sep_setObj_sameGet h _ hget, ?_⟩
+        rw [abs_setObj_sameGet h _ hget, Obj.info_set]; rfl
+      | some r =>
+        simp only [snd_allocD, obj_allocD]
+        have hg' : (t.obj o).get .graph = some r := hg
+        refine ⟨sep_bind_fresh h .graph _, ?_⟩
+        rw [abs_bind_fresh h .graph]
+        apply Abs.ext'
+        · intro a'; rw [Abs.get_set]
+          split
+          · rename_i e; subst e; rw [abs_get, hg']; rfl
+          · rfl
+        · rw [Abs.info_set]
+    · exact ⟨h, rfl⟩
+  | clear a =>
+    simp only [step, astep]
+    refine ⟨⟨by simpa using h.valid, ?_, ?_⟩, ?_⟩
+    · intro a' r' hr'
+      rw [obj_setObj_same h.valid, Obj.get_set] at hr'
+      split at hr'
+      · cases hr'
+      · simpa using h.bound a' r' hr'
+    · intro a1 a2 r' h1 h2
+      rw [obj_setObj_same h.valid, Obj.get_set] at h1 h2
+      split at h1
+      · cases h1
+      · split at h2
+        · cases h2
+        · exact h.inj a1 a2 r' h1 h2
+    · apply Abs.ext'
+      · intro a'
+        rw [abs_get, obj_setObj_same h.valid, Obj.get_set, Abs.get_set, abs_get]
+        split
+        · rfl
+        · rfl
+      · rw [abs_info, obj_setObj_same h.valid, Obj.info_set, Abs.info_set]; rfl
+
+theorem exec_abs (b : List Stmt) : ∀ {t : Store} {o : Ref}, Sep t o →
+    Sep (exec t o b) o ∧ (exec t o b).abs o = aexec (t.abs o) b := by
+  induction b with
+  | nil => intro t o h; exact ⟨h, rfl⟩
+  | cons st b ih =>
+    intro t o h
+    obtain ⟨h1, h2⟩ := step_abs h st
+    obtain ⟨h3, h4⟩ := ih h1
+    refine ⟨h3, ?_⟩
+    show (exec (step t o st) o b).abs o = aexec (astep (t.abs o) st) b
+    rw [h4, h2]
+
 end Navis.Heap
